@@ -160,3 +160,12 @@ info('C15',
      ['truncate() as an unbounded deductive obligation over symbolic spectra: not built in this round (bounded only)',
       'eigh_rho and decompose_theta_qr_based: exercised only by the repository tests'],
      [])
+info('C16',
+     'P: KrylovBased._to_cache FIFO contract (contracts/c_krylov.py). '
+     'B (bounded, not proof): LanczosGroundState over N_cache in {2,3,N_max} x reortho x E_shift on random Hermitian block-sparse '
+     'operators (normalised vector, E0 = Rayleigh quotient >= minimum of the sector, exact at full Krylov dimension, independent of '
+     'N_cache), orthogonal projection, Shift/Sum operator wrappers, Lanczos/Arnoldi evolution vs expm (norm preserving for '
+     'anti-Hermitian exponents), Arnoldi Ritz pairs ordered by `which`, gram_schmidt, GMRES residual.',
+     ['Lanczos numerics and convergence: bounded only', 'index coverage of _calc_result_full for every N_cache as a deductive obligation: '
+      'not built'],
+     [])
